@@ -597,6 +597,9 @@ func (f *Frame) findLock(l *Loc) *LockDecl {
 	for _, ld := range f.g.cs.Locks {
 		want := "F:" + shortPath(ld.Pkg) + "." + ld.Type + "." + ld.Field
 		if l.arr == want && len(l.path) == 0 {
+			if len(ld.Props) > 0 && currentProp != "" && !contains(ld.Props, currentProp) {
+				continue
+			}
 			return ld
 		}
 	}
@@ -650,6 +653,25 @@ func (f *Frame) syncCall(bi *BInfo, fn *ssa.Function, args []T, argVals []ssa.Va
 			delete(st.held, key)
 		}
 	}
+	if acquire && l != nil && l.kind == "field" && f.top.fc != nil && f.top.fc.AtLock != nil && !f.specMode {
+		// lock nesting demanded by the contract of the function under verification
+		fname := l.arr[strings.LastIndex(l.arr, ".")+1:]
+		for i, c := range f.top.fc.AtLock[fname] {
+			held := map[string]bool{}
+			for k, v := range st.held {
+				held[k] = v
+			}
+			delete(held, l.arr+"@"+l.ref) // the lock being acquired does not count
+			cst := st.clone()
+			cst.held = held
+			env := f.specEnv(cst, f.curBlock, f.curIdx, nil, nil)
+			if v, err := env.evalBool(c.Expr); err == nil {
+				f.addObl("lock-order", fname+"/"+clauseLabel(c, i), bi.R, v.S, "when acquiring "+fname+": "+c.Text)
+			} else {
+				g.resolutionFailure(f, fmt.Sprintf("at-lock %s: %v", fname, err))
+			}
+		}
+	}
 	if ld == nil {
 		return nil, true
 	}
@@ -661,6 +683,17 @@ func (f *Frame) syncCall(bi *BInfo, fn *ssa.Function, args []T, argVals []ssa.Va
 			env := f.lockEnv(ld, l.ref, st, pre)
 			pl := env.fieldLocOf(env.vars[ld.Recv], p)
 			if pl == nil {
+				continue
+			}
+			if mt, isMap := pl.T.Underlying().(*types.Map); isMap {
+				// a protected map: the map object stays, its content is whatever the others left
+				mref := g.load(st, pl).S
+				va, ha, ks, vs := g.mapArrs(mt)
+				vsort, hsort := fmt.Sprintf("(Array %s %s)", ks, vs), fmt.Sprintf("(Array %s Bool)", ks)
+				g.setArr(st, va, vsort, sto(g.arr(st, va, vsort), mref, g.freshConst("lk:mapv:"+p, vsort)))
+				g.setArr(st, ha, hsort, sto(g.arr(st, ha, hsort), mref, g.freshConst("lk:maph:"+p, hsort)))
+				ca := cardArr(mt)
+				g.setArr(st, ca, "Int", sto(g.arr(st, ca, "Int"), mref, g.freshConst("lk:mapc:"+p, "Int")))
 				continue
 			}
 			g.store(st, pl, g.freshConst("lk:"+p, g.sortOf(pl.T)))
@@ -683,9 +716,10 @@ func (f *Frame) syncCall(bi *BInfo, fn *ssa.Function, args []T, argVals []ssa.Va
 		if f.top.fc != nil && f.top.fc.Opts["old"] == "cs" && !f.specMode {
 			// the contract describes the atomic effect of the critical section: old() refers to the
 			// state found when the lock was acquired
-			nx := f.top.entry.next
-			f.top.entry = st.clone()
-			f.top.entry.next = nx
+			snap := st.clone()
+			snap.next = f.top.entry.next
+			snap.cs = nil
+			st.cs = snap
 		}
 		for _, c := range ld.Rely {
 			if v, err := env.evalBool(c.Expr); err == nil {
